@@ -179,7 +179,7 @@ extern "C" bool LPFhasKeyword(char*& pos, const char* keyword)
 {
 #include "LPFhasKeyword.inc"
 }
-extern "C" int w_hasKeyword(char* line, int n, int off, int* off_out)
+extern "C" int w_hasKeyword(char* line, int n, int off, int* off_out, int* end_out)
 {
    VIN("n", n); VIN("len", g_len); VIN("off", off); VIN_ARR8("text", line + off, n - off);
    char* p = line + off;
@@ -188,6 +188,7 @@ extern "C" int w_hasKeyword(char* line, int n, int off, int* off_out)
 #include "keyword.inc"
                          );
    *off_out = (int)(p - line);
+   *end_out = *p;
    return r;
 }
 #endif
